@@ -225,7 +225,7 @@ def neutralise_decisions(check, scenario, seed, clause, decisions, budget_s=30.0
     """With every recorded decision pinned, switch off fired faults one at a time."""
     t_end = time.monotonic() + budget_s
     ov = json.loads(json.dumps(decisions))
-    fired = [k for k, v in ov.items() if isinstance(v, dict) and any(x in v for x in ("drop", "dup", "b2b", "cor"))]
+    fired = [k for k, v in ov.items() if isinstance(v, dict) and any(x in v for x in ("drop", "dup", "dup2", "b2b", "cor"))]
     for k in fired:
         if time.monotonic() > t_end:
             break
@@ -238,7 +238,7 @@ def neutralise_decisions(check, scenario, seed, clause, decisions, budget_s=30.0
 
 def write_replay(check, scenario, seed, v, out, overrides, shrink_execs):
     os.makedirs(os.path.join(VERIF, "replays"), exist_ok=True)
-    fired = {k: d for k, d in overrides.items() if isinstance(d, dict) and any(x in d for x in ("drop", "dup", "b2b", "cor"))}
+    fired = {k: d for k, d in overrides.items() if isinstance(d, dict) and any(x in d for x in ("drop", "dup", "dup2", "b2b", "cor"))}
     rep = {
         "property": check.PROPERTY, "clause": v.clause, "detail": v.detail, "sig": v.sig, "seed": seed,
         "PYTHONHASHSEED": HASHSEED, "digest": out.digest, "scenario": scenario,
